@@ -48,6 +48,7 @@ inductive Tr (s : St) (t : Tid) : Ev → St → Prop
   | dRelock (c : Nat) (hp : s.pc t = .dRelock c) (hl : s.lock = none) :
       Tr s t .mlk ({ s with lock := some t }.setPc t (.dLocked c))
   | retD (hp : s.pc t = .dDone) : Tr s t .retD (s.setPc t .idle)
+  | mac (hl : s.lock = some t ∨ s.pc t = .dDone) : Tr s t .mac s
 
 theorem step_tr {s s' : St} {t : Tid} {e : Ev} (hs : step s t e = some s') : Tr s t e s' := by
   unfold step at hs
@@ -125,6 +126,9 @@ theorem step_tr {s s' : St} {t : Tid} {e : Ev} (hs : step s t e = some s') : Tr 
     · rename_i h; injection hs with hs; subst hs; exact Tr.dRelock c hpc h
     · contradiction
   · rename_i hpc; injection hs with hs; subst hs; exact Tr.retD hpc
+  · split at hs
+    · rename_i h; injection hs with hs; subst hs; exact Tr.mac h
+    · contradiction
   · contradiction
 
 theorem tr_step {s s' : St} {t : Tid} {e : Ev} (h : Tr s t e s') : step s t e = some s' := by
@@ -150,6 +154,7 @@ theorem tr_step {s s' : St} {t : Tid} {e : Ev} (h : Tr s t e s') : step s t e = 
   | dSlp c hp hc => simp [step, hp, hc]
   | dRelock c hp hl => simp [step, hp, hl]
   | retD hp => simp [step, hp]
+  | mac hl => cases hp : s.pc t <;> simp only [step] <;> exact if_pos hl
 
 @[simp] theorem setPc_pc_same (s : St) (t : Tid) (p : Pc) : (s.setPc t p).pc t = p := by simp [St.setPc]
 theorem setPc_pc_other (s : St) (t u : Tid) (p : Pc) (h : u ≠ t) : (s.setPc t p).pc u = s.pc u := by
@@ -235,6 +240,7 @@ theorem lk_tr {s s' : St} {t : Tid} {e : Ev} (h : LkInv s) (htr : Tr s t e s') :
   | dRelock c hp hl =>
     exact lk_frame h (fun u hu => setPc_pc_other _ t u _ hu) (Or.inr (Or.inl ⟨hl, rfl, by simp [Pc.inCS]⟩))
   | retD hp => exact lk_frame h (fun u hu => setPc_pc_other _ t u _ hu) (Or.inl (by simp [hp, Pc.inCS]))
+  | mac hl => exact h
 
 /-! ### linearizability -/
 
@@ -379,6 +385,7 @@ theorem hinv_tr {s s' : St} {t : Tid} {e : Ev} (h : HInv s) (htr : Tr s t e s') 
     exact hinv_frame h rfl rfl rfl (fun u hu => setPc_pc_other _ t u _ hu) (Or.inl (by simp [Pc.cur]))
   | retD hp =>
     exact hinv_frame h rfl rfl rfl (fun u hu => setPc_pc_other _ t u _ hu) (Or.inl (by simp [Pc.cur]))
+  | mac hl => exact h
 
 /-! ### the reference ledger -/
 
@@ -578,6 +585,44 @@ theorem ainv_tr {s s' : St} {t : Tid} {e : Ev} (h : AInv s) (htr : Tr s t e s') 
   | dRelock c hp hl =>
     exact ainv_frame h rfl rfl rfl rfl (fun u hu => setPc_pc_other _ t u _ hu) (Or.inl (by simp)) (Or.inl (by simp [Pc.cur]))
   | retD hp => exact ainv_frame h rfl rfl rfl rfl (fun u hu => setPc_pc_other _ t u _ hu) (Or.inl (by simp)) (Or.inl (by simp [Pc.cur]))
+  | mac hl => exact h
+
+/-! ### the destructor's teardown state -/
+
+/-- a thread past the destructor's final release: the holder is gone -/
+def DInv (s : St) : Prop := ∀ u, s.pc u = .dDone → s.gone = true
+
+theorem dinv_init : DInv init := by intro u h; simp [init] at h
+
+theorem dinv_tr {s s' : St} {t : Tid} {e : Ev} (h : DInv s) (htr : Tr s t e s') : DInv s' := by
+  have other : ∀ (p : Pc) (s1 : St), s1.gone = s.gone → s1.pc = s.pc → p ≠ .dDone → DInv (s1.setPc t p) := by
+    intro p s1 hg hpc hp u hu
+    by_cases hut : u = t
+    · subst hut; simp at hu; exact absurd hu hp
+    · rw [setPc_pc_other _ t u _ hut, hpc] at hu
+      show s1.gone = true
+      rw [hg]; exact h u hu
+  cases htr with
+  | pdt k hc hd hm hh => exact h
+  | rel k hp hh => exact h
+  | mac hl => exact h
+  | dFinal c hp hl hc => intro u _; rfl
+  | callNew op k hp hg hn hf => exact other _ _ rfl rfl (by simp)
+  | call op hp hg hn => exact other _ _ rfl rfl (by simp)
+  | lin op hp hl hg => exact other _ _ rfl rfl (by simp)
+  | pcl op res k pend hp => exact other _ _ rfl rfl (by simp)
+  | uth op hp => exact other _ _ rfl rfl (by simp)
+  | mulCs op res hp hr hl => exact other _ _ rfl rfl (by simp)
+  | mulThrown op hp hl => exact other _ _ rfl rfl (by simp)
+  | ret op res hp hr => exact other _ _ rfl rfl (by simp)
+  | exc op hp => exact other _ _ rfl rfl (by simp)
+  | callD hp hg hd => exact other _ _ rfl rfl (by simp)
+  | dLock hp hl => exact other _ _ rfl rfl (by simp)
+  | dRetry c hp hl hc => exact other _ _ rfl rfl (by simp)
+  | dYld c hp hc => exact other _ _ rfl rfl (by simp)
+  | dSlp c hp hc => exact other _ _ rfl rfl (by simp)
+  | dRelock c hp hl => exact other _ _ rfl rfl (by simp)
+  | retD hp => exact other _ _ rfl rfl (by simp)
 
 /-! ### all together, for every reachable state -/
 
@@ -585,12 +630,13 @@ structure Inv (s : St) : Prop where
   lk : LkInv s
   h : HInv s
   a : AInv s
+  d : DInv s
 
-theorem inv_init : Inv init := ⟨lk_init, hinv_init, ainv_init⟩
+theorem inv_init : Inv init := ⟨lk_init, hinv_init, ainv_init, dinv_init⟩
 
 theorem inv_step (s : St) (t : Tid) (e : Ev) (s' : St) (hi : Inv s) (hs : step s t e = some s') : Inv s' :=
   have htr := step_tr hs
-  ⟨lk_tr hi.lk htr, hinv_tr hi.h htr, ainv_tr hi.a htr⟩
+  ⟨lk_tr hi.lk htr, hinv_tr hi.h htr, ainv_tr hi.a htr, dinv_tr hi.d htr⟩
 
 theorem inv_reachable {s : St} (h : Reachable s) : Inv s := by
   obtain ⟨es, hes⟩ := h
